@@ -1,0 +1,54 @@
+package nitro
+
+import "github.com/couchbase/nitro/skiplist"
+
+// Yield-site identifiers used by the simulation hooks (build tag verif).
+const (
+	SiteDelSetLink = iota + skiplist.SiteSkiplistMax
+	SiteDelDeadCAS
+	SiteDelAppend
+	SiteDelFlush
+	SiteOpenInc
+	SiteCloseDec
+	SiteCloseRetire
+	SiteCloseMove
+	SiteCloseGC
+	SiteGCTry
+	SiteGCRelease
+	SiteCollectCheck
+	SiteCollectStore
+	SiteCollectSend
+	SiteCollectDelete
+	SiteGCWStart
+	SiteGCWSelect
+	SiteGCWDelta
+	SiteGCWUnlink
+	SiteGCWFlush
+	SiteFreeWStart
+	SiteFreeWRecv
+	SiteFreeWNode
+	SiteDestructorSend
+	SiteCloseSleep
+	SiteCloseChan
+	SiteCloseWait
+	SiteVisitorWorker
+	SiteVisitorRecv
+	SiteVisitorSend
+	SiteVisitorWait
+	SiteVisitorPivot
+	SiteVisitorItem
+	SiteDeltaSend
+	SiteDeltaRecv
+	SiteCheckpoint
+	SiteLoadWorker
+	SiteLoadRecv
+	SiteLoadSend
+	SiteLoadWait
+	SiteLoadDeltaWorker
+	SiteSkipUnwanted
+	SiteExistCmp
+	SiteNewSnapshot
+	SiteIterRefresh
+
+	SiteNitroMax
+)
